@@ -154,13 +154,16 @@ pub struct Engine<'a> {
     ovs: Vec<OvInfo>,
     fins: Vec<FinInfo>,
     last_marker: Option<usize>,
-    pool: Vec<Key>,
+    pub pool: Vec<Key>,
     next_sid: usize,
     pub big: bool,
     pub scale: usize,
     pub always_preserve: bool,
     pub no_dread: bool,
     pub events: BTreeMap<String, u64>,
+    /// C16 image mode: when set, every quiescent point (`check_committed`) hands the directory and
+    /// the oracle's committed map to `image::snapshot` (behaviour is unchanged when `None`)
+    pub image_sink: Option<crate::image::Snapshots>,
 }
 
 fn chance_list<T: Clone>(rng: &mut Rng, v: &[T]) -> T {
@@ -189,6 +192,7 @@ impl<'a> Engine<'a> {
             always_preserve: false,
             no_dread: false,
             events: BTreeMap::new(),
+            image_sink: None,
         };
         e.pool = gen_keyset(&mut e.rng, 40);
         e.open_db();
@@ -548,6 +552,9 @@ impl<'a> Engine<'a> {
         for _ in 0..n {
             let k = if self.rng.chance(3, 4) { *self.rng.pick(&keys) } else { self.gen_key() };
             self.dread(&k, why);
+        }
+        if let Some(snaps) = self.image_sink.as_mut() {
+            snaps.snapshot(&self.dir, &self.committed, why);
         }
     }
 
